@@ -85,6 +85,21 @@ Theorem C09_old_incarnation_silent : forall sc pre e post m c t a,
 Proof. exact old_incarnation_silent. Qed.
 Print Assumptions C09_old_incarnation_silent.
 
+(* fresh_after_restart (partial): when a restart event of m is dispatched, the world it is dispatched
+   in is a generated one in which m is down: inactive, no task, no pending timer, no pending
+   request -- the replayed start-up stages build the new incarnation from the same task / timer
+   state as the very first start.  (With old_incarnation_silent: every task step afterwards belongs
+   to the new incarnation.)
+   Full statement, not proved: the records of m after the restart equal those of a module started
+   for the first time at that instant with the same later inputs.  As stated it is false by design:
+   the user struct survives ("custom state will be kept": here budget and incarnation counter), and
+   so do the time driver's next_wakeup and the try_join handles. *)
+Theorem C09_fresh_after_restart_partial : forall sc pre e post m,
+  trace sc = pre ++ e :: post -> e_kind e = KLoop (EvRestart m) ->
+  exists w1 f1, Gen sc w1 pre /\ Down m w1 /\ fes_fetch (w_fes w1) = Some (e_time e, EvRestart m, f1).
+Proof. exact fresh_after_restart. Qed.
+Print Assumptions C09_fresh_after_restart_partial.
+
 (* shutdown_frame: consuming m's shutdown request (second half of buf_process) changes no other
    module's state -- tasks and timers included --, leaves the global slots and the error list
    alone and changes the queued events only by inserting m's restart event, every other event
